@@ -234,3 +234,54 @@ def find_typedef(src: str, msk: str, kind: str, name: str):
                 continue
         break
     return (start, e)
+
+
+def iter_string_literals(src: str):
+    """Yield (start_offset, text) for every string literal (normal, byte, raw) outside comments."""
+    n = len(src)
+    i = 0
+    while i < n:
+        c = src[i]
+        if c == "/" and src.startswith("//", i):
+            j = src.find("\n", i)
+            i = n if j < 0 else j
+        elif c == "/" and src.startswith("/*", i):
+            depth = 1
+            j = i + 2
+            while j < n and depth > 0:
+                if src.startswith("/*", j):
+                    depth += 1
+                    j += 2
+                elif src.startswith("*/", j):
+                    depth -= 1
+                    j += 2
+                else:
+                    j += 1
+            i = j
+        elif c == '"' or (c in "br" and _is_str_prefix(src, i)):
+            j = i
+            while src[j] in "br":
+                j += 1
+            hashes = 0
+            raw = "r" in src[i:j]
+            while src[j] == "#":
+                hashes += 1
+                j += 1
+            j += 1
+            start = j
+            if raw:
+                term = '"' + "#" * hashes
+                k = src.find(term, j)
+                k = n if k < 0 else k
+                yield (start, src[start:k])
+                i = k + len(term)
+            else:
+                while j < n and src[j] != '"':
+                    j += 2 if src[j] == "\\" else 1
+                yield (start, src[start:j])
+                i = j + 1
+        elif c == "'":
+            m = re.compile(r"'(\\(x[0-9a-fA-F]{2}|u\{[0-9a-fA-F_]+\}|.)|[^\\'\n])'").match(src, i)
+            i = m.end() if m else i + 1
+        else:
+            i += 1
